@@ -989,11 +989,22 @@ def restr_cases(run: Run, pairs, what='restriction'):
         st.count('restriction:' + im)
         if a['flat'] == '1':
             st.count('restriction-flat')
-            if im != a['restr']:
+            if im == '1' and a['restr'] == '0' and f18u(t1, t2):
+                # INTERIM (until branch fix-c18-5 is in the reference tree): the model describes the repaired check
+                # (a candidate that is no function test is rejected); the wrong `True` is finding F18u, reported by
+                # the laws of the real relation with a concrete unsound / non-transitive witness
+                st.count('interim:F18u-pair(skipped)')
+            elif im != a['restr']:
                 run.disagree(Disagreement({'st1': s1, 'st2': s2, 'op': 'is_sequence_type_restriction'}, im, a['restr'],
                                           what='restriction', site='sequence_types.is_sequence_type_restriction'))
         else:
             st.count('restriction-nonflat(model not claimed)')
+
+
+def f18u(t_super, t_cand) -> bool:
+    """trigger of F18u (repaired on branch fix-c18-5): the super-type is a typed function test and the candidate is
+    no function test but its text contains ') as ' (an array / map test over a typed function test)"""
+    return t_super[0] == 'F' and t_cand[0] in ('A', 'M') and has_typed_func(t_cand)
 
 
 def laws_of_real_relation(run: Run, W: World, types, values, tag_check=True):
@@ -1027,7 +1038,8 @@ def laws_of_real_relation(run: Run, W: World, types, values, tag_check=True):
                         trans_viol += 1
                         run.disagree(Disagreement({'law': 'transitive', 'st1': texts[i], 'st2': texts[j], 'st3': texts[k]},
                                                   'R(1,2) R(2,3) not R(1,3)', None, 'holds', what='law-transitive',
-                                                  site='sequence_types.is_sequence_type_restriction'))
+                                                  site='sequence_types.is_sequence_type_restriction',
+                                                  tags=['F18u'] if f18u(types[i], types[j]) or f18u(types[j], types[k]) else []))
     # soundness
     mt = {}
     for vi, (pv, vt) in enumerate(values):
@@ -1051,7 +1063,7 @@ def laws_of_real_relation(run: Run, W: World, types, values, tag_check=True):
                                 {'law': 'sound', 'super': texts[i], 'candidate': texts[j], 'value': vt},
                                 f'restriction=True match(v,candidate)=True match(v,super)={mt[vi, i]}', None, 'holds',
                                 what='law-sound', site='sequence_types.is_sequence_type_restriction',
-                                tags=[]))
+                                tags=['F18u'] if f18u(types[i], types[j]) else []))
                         sound_viol += 1
 
 
@@ -1718,6 +1730,9 @@ def corpus_types():
             (('L', ('l', 2), '?'), ('L', ('l', 0), '?')), (('L', ('anySimple',), '*'), ('L', ('l', 2), '*')),
             (('L', ('fany',), '1'), ('F', [a('xs:int')], a('xs:int'))),
             (('F', [a('xs:int')], a('xs:int')), ('L', ('many',), '1')),
+            # F18u: a candidate that is no function test but whose text contains ') as '
+            (('F', [('E',)], item()), ('A', ('F', [('L', ('D', 4), '*')], a('xs:boolean', '+')), '1')),
+            (('F', [a('xs:int', '?')], item()), ('M', ix('xs:int'), ('F', [a('xs:int')], item()), '1')),
         ],
     }
 
